@@ -1,1 +1,708 @@
-/-! # C20 — property theorems (to be filled) -/
+import PraatModel.Numeric
+import PraatModel.Lemmas.Tier
+
+/-!
+# C20 — numeric series helpers match their textbook definitions
+
+Theorems about the model `PraatModel/Numeric.lean`.  Series are lists of unbounded `Int` (every finite set
+of binary64 values is a set of integers after one power-of-two scaling, and the functions here only
+compare and select); the jump test of `detectPitchErrors` multiplies and divides, so its theorems are over
+the exact rationals `Rat` (Lean core).  Lists have any length, windows any size.
+`mean`/`stdev`/`sqrt`/`rms`/z-normalisation are not modelled (checked by the Python oracle only).
+-/
+namespace C20
+open Numeric
+
+/-! ## the textbook window: `[xs[clamp (i + k)] | k = -off .. off]` -/
+
+/-- clamp an index to `[0, n-1]` -/
+def clampIdx (n : Nat) (j : Int) : Nat := (min (max j 0) ((n : Int) - 1)).toNat
+
+theorem clampIdx_lt {n : Nat} (h : 0 < n) (j : Int) : clampIdx n j < n := by
+  unfold clampIdx; omega
+
+/-- `[xs[clamp (i - off)], …, xs[i], …, xs[clamp (i + off)]]` (`d` is only a default for `getD`; by
+`clampedWindow_getElem` it is never used on a non-empty list) -/
+def clampedWindow {α : Type} (xs : List α) (d : α) (i off : Nat) : List α :=
+  (List.range (2 * off + 1)).map fun (k : Nat) => xs.getD (clampIdx xs.length ((i : Int) + (k : Int) - (off : Int))) d
+
+theorem clampedWindow_length {α : Type} (xs : List α) (d : α) (i off : Nat) :
+    (clampedWindow xs d i off).length = 2 * off + 1 := by
+  simp [clampedWindow]
+
+theorem clampedWindow_getElem {α : Type} (xs : List α) (d : α) (i off k : Nat) (hn : 0 < xs.length)
+    (hk : k < 2 * off + 1) :
+    (clampedWindow xs d i off)[k]'(by simpa [clampedWindow] using hk) =
+      xs[clampIdx xs.length ((i : Int) + (k : Int) - (off : Int))]'(clampIdx_lt hn _) := by
+  simp [clampedWindow, List.getD_eq_getElem?_getD, clampIdx_lt hn]
+
+/-! ## the inner loop of `_stepFilter` -/
+
+theorem ctxLoop_succ {α : Type} (dist : List α) (v : α) (x n k : Nat) :
+    ctxLoop dist v x n (k + 1) = ctxStep dist v x n (ctxLoop dist v x n k) (k + 1) := by
+  unfold ctxLoop
+  rw [List.range'_concat, List.foldl_append]
+  simp [Nat.add_comm]
+
+/-- `lastKnownLargeIndex` after `k` rounds: still 0 if nothing to the right exists, else `min (x+k) (n-1)` -/
+theorem ctx_last {α : Type} (dist : List α) (v : α) (x n k : Nat) (hx : x < n) :
+    (ctxLoop dist v x n k).last = if 0 < k ∧ x + 1 < n then min (x + k) (n - 1) else 0 := by
+  induction k with
+  | zero => simp [ctxLoop]
+  | succ k ih =>
+    rw [ctxLoop_succ]
+    simp only [ctxStep, largeIndex, ih]
+    by_cases h1 : x + (k + 1) ≥ n
+    · simp only [h1, if_true]
+      split <;> split <;> omega
+    · simp only [h1, if_false]
+      split <;> omega
+
+/-- the `lastKnownLargeIndex` device computes `min (x + y) (n - 1)`: the right neighbour, clamped -/
+theorem largeIndex_eq {α : Type} (dist : List α) (v : α) (x n k : Nat) (hx : x < n) :
+    (largeIndex x n (ctxLoop dist v x n k).last (k + 1)).1 = min (x + (k + 1)) (n - 1) := by
+  rw [ctx_last dist v x n k hx]
+  unfold largeIndex
+  by_cases h1 : x + (k + 1) ≥ n
+  · by_cases h2 : 0 < k ∧ x + 1 < n
+    · have h3 : ¬ (min (x + k) (n - 1) = 0) := by omega
+      simp only [h1, h2, if_true, and_self, beq_iff_eq, h3, if_false]; omega
+    · simp only [h1, h2, if_true, if_false, beq_self_eq_true]; omega
+  · simp only [h1, if_false]; omega
+
+theorem largeIndex_lt {α : Type} (dist : List α) (v : α) (x n k : Nat) (hx : x < n) :
+    (largeIndex x n (ctxLoop dist v x n k).last (k + 1)).1 < n := by
+  rw [largeIndex_eq dist v x n k hx]; omega
+
+theorem smallIndex_eq (x y : Nat) : smallIndex x y = x - y := by
+  unfold smallIndex; split <;> omega
+
+theorem ctx_post {α : Type} (dist : List α) (v : α) (x n k : Nat) (hx : x < n) :
+    (ctxLoop dist v x n k).post = (List.range k).map fun j => dist.getD (min (x + (j + 1)) (n - 1)) v := by
+  induction k with
+  | zero => simp [ctxLoop]
+  | succ k ih =>
+    rw [ctxLoop_succ]
+    simp only [ctxStep]
+    rw [largeIndex_eq dist v x n k hx, ih, List.range_succ, List.map_append]
+    simp
+
+theorem ctx_pre {α : Type} (dist : List α) (v : α) (x n k : Nat) :
+    (ctxLoop dist v x n k).pre = (List.range k).map fun j => dist.getD (x - (k - j)) v := by
+  induction k with
+  | zero => simp [ctxLoop]
+  | succ k ih =>
+    rw [ctxLoop_succ]
+    simp only [ctxStep]
+    rw [smallIndex_eq, ih, List.range_succ_eq_map, List.map_cons, List.map_map]
+    simp [Function.comp_def]
+
+/-! ## `_stepFilter` against the textbook window -/
+
+/-- the window handed to the filter function always has odd length `2 * offset + 1` (any position) -/
+theorem window_odd_length {α : Type} (dist : List α) (v : α) (x off : Nat) :
+    (dataToFilter dist v x off).length = 2 * off + 1 := by
+  simp only [dataToFilter, List.length_append, ctx_pre, List.length_map, List.length_range,
+    List.length_cons, List.length_nil]
+  have : (ctxLoop dist v x dist.length off).post.length = off := by
+    induction off with
+    | zero => simp [ctxLoop]
+    | succ k ih => rw [ctxLoop_succ]; simp [ctxStep, ih]
+  omega
+
+/-- what `_stepFilter` hands to the filter function at position `x` is the clamped window around `x` -/
+theorem dataToFilter_eq {α : Type} (xs : List α) (x off : Nat) (hx : x < xs.length) :
+    dataToFilter xs xs[x] x off = clampedWindow xs xs[x] x off := by
+  apply List.ext_getElem
+  · rw [window_odd_length, clampedWindow_length]
+  · intro m h1 h2
+    rw [clampedWindow_length] at h2
+    rw [clampedWindow_getElem xs xs[x] x off m (by omega) h2]
+    simp only [dataToFilter, ctx_pre, ctx_post xs xs[x] x xs.length off hx]
+    by_cases hm : m < off
+    · rw [List.getElem_append_left (by simp; omega), List.getElem_append_left (by simp; omega)]
+      simp only [List.getElem_map, List.getElem_range]
+      have : clampIdx xs.length ((x : Int) + (m : Int) - (off : Int)) = x - (off - m) := by
+        unfold clampIdx; omega
+      simp only [this]
+      rw [List.getD_eq_getElem?_getD, List.getElem?_eq_getElem (by omega)]; rfl
+    · by_cases hm2 : m = off
+      · subst hm2
+        rw [List.getElem_append_left (by simp), List.getElem_append_right (by simp)]
+        have : clampIdx xs.length (x : Int) = x := by
+          unfold clampIdx; omega
+        simp [this]
+      · rw [List.getElem_append_right (by simp; omega)]
+        simp only [List.length_append, List.length_map, List.length_range, List.length_cons,
+          List.length_nil, List.getElem_map, List.getElem_range]
+        have : clampIdx xs.length ((x : Int) + (m : Int) - (off : Int)) =
+            min (x + (m - (off + (0 + 1)) + 1)) (xs.length - 1) := by
+          unfold clampIdx; omega
+        simp only [this]
+        rw [List.getD_eq_getElem?_getD, List.getElem?_eq_getElem (by omega)]; rfl
+
+/-- `_stepFilter` preserves the length, for every filter function, window and padding flag -/
+theorem stepFilter_length {α : Type} (f : List α → α) (xs : List α) (window : Nat) (pad : Bool) :
+    (stepFilter f xs window pad).length = xs.length := by
+  simp [stepFilter]
+
+/-- **`_stepFilter` is the clamped sliding window.**  For every filter function `f`, series, window size and
+padding flag, element `i` of the result is `f [xs[clamp (i + k)] | k = -off .. off]` with
+`off = window / 2` and indices clamped to `[0, n-1]` when padding is on or the window fits
+(`off ≤ i ∧ i + off < n`), and `xs[i]` unchanged otherwise. -/
+theorem stepFilter_spec {α : Type} (f : List α → α) (xs : List α) (window : Nat) (pad : Bool) (i : Nat)
+    (hi : i < xs.length) :
+    (stepFilter f xs window pad)[i]'(by rw [stepFilter_length]; exact hi) =
+      if pad = true ∨ (window / 2 ≤ i ∧ i + window / 2 < xs.length) then
+        f (clampedWindow xs xs[i] i (window / 2))
+      else xs[i] := by
+  simp only [stepFilter, List.getElem_map, List.getElem_zipIdx, Nat.zero_add]
+  rw [dataToFilter_eq xs i (window / 2) hi]
+  simp only [Bool.or_eq_true, Bool.and_eq_true, decide_eq_true_eq]
+
+/-- without padding the first and last `window / 2` elements are returned unchanged -/
+theorem stepFilter_edges {α : Type} (f : List α → α) (xs : List α) (window : Nat) (i : Nat)
+    (hi : i < xs.length) (hedge : i < window / 2 ∨ xs.length ≤ i + window / 2) :
+    (stepFilter f xs window false)[i]'(by rw [stepFilter_length]; exact hi) = xs[i] := by
+  rw [stepFilter_spec f xs window false i hi, if_neg]
+  simp only [Bool.false_eq_true, false_or]; omega
+
+/-! ## the median of an odd-length window is the middle element of its sort: no arithmetic -/
+
+theorem pySorted_perm (w : List Int) : (pySorted w).Perm w := List.mergeSort_perm _ _
+
+theorem pySorted_length (w : List Int) : (pySorted w).length = w.length := (pySorted_perm w).length_eq
+
+theorem pySorted_sorted (w : List Int) : (pySorted w).Pairwise (· ≤ ·) := by
+  have h := List.pairwise_mergeSort (le := fun (a b : Int) => decide (a ≤ b))
+    (by intro a b c; simp only [decide_eq_true_eq]; omega)
+    (by intro a b; simp only [Bool.or_eq_true, decide_eq_true_eq]; omega) w
+  exact h.imp (by intro a b; simp)
+
+theorem sorted_le {s : List Int} (hs : s.Pairwise (· ≤ ·)) (i j : Nat) (hj : j < s.length) (hij : i ≤ j) :
+    s[i]'(by omega) ≤ s[j] := by
+  rcases Nat.lt_or_ge i j with h | h
+  · exact (List.pairwise_iff_getElem.1 hs) i j (by omega) hj h
+  · have : i = j := by omega
+    subst this; exact Int.le_refl _
+
+/-- `statistics.median` of a window of odd length `2k+1` is element `k` of the sorted window -/
+theorem median_mid (w : List Int) (k : Nat) (h : w.length = 2 * k + 1) :
+    (pySorted w)[k]? = some (median w) ∧ (pySorted w).Perm w ∧ (pySorted w).Pairwise (· ≤ ·) := by
+  refine ⟨?_, pySorted_perm w, pySorted_sorted w⟩
+  have hk : k < (pySorted w).length := by rw [pySorted_length]; omega
+  have : w.length / 2 = k := by omega
+  simp [median, this, List.getD_eq_getElem?_getD, List.getElem?_eq_getElem hk]
+
+theorem median_mem (w : List Int) (h : w ≠ []) : median w ∈ w := by
+  have hl : 0 < w.length := List.length_pos_iff.2 h
+  have hk : w.length / 2 < (pySorted w).length := by rw [pySorted_length]; omega
+  have : median w = (pySorted w)[w.length / 2] := by
+    simp [median, List.getD_eq_getElem?_getD, List.getElem?_eq_getElem hk]
+  rw [this]
+  exact (pySorted_perm w).mem_iff.1 (List.getElem_mem hk)
+
+/-- the textbook characterisation: at most `k` elements of the `2k+1` are smaller than the median and at most
+`k` are larger -/
+theorem median_rank (w : List Int) (k : Nat) (h : w.length = 2 * k + 1) :
+    w.countP (fun x => decide (x < median w)) ≤ k ∧ w.countP (fun x => decide (median w < x)) ≤ k := by
+  obtain ⟨hm, hp, hs⟩ := median_mid w k h
+  have hlen : (pySorted w).length = 2 * k + 1 := by rw [pySorted_length, h]
+  have hk : k < (pySorted w).length := by omega
+  have hmk : median w = (pySorted w)[k] := by
+    rw [List.getElem?_eq_getElem hk] at hm; exact (Option.some.inj hm).symm
+  rw [← hp.countP_eq, ← hp.countP_eq]
+  generalize pySorted w = s at *
+  constructor
+  · rw [← List.take_append_drop k s, List.countP_append]
+    have h0 : (List.drop k s).countP (fun x => decide (x < median w)) = 0 := by
+      rw [List.countP_eq_zero]
+      intro a ha
+      obtain ⟨j, hj, rfl⟩ := List.mem_drop_iff_getElem.1 ha
+      have := sorted_le hs k (k + j) (by omega) (by omega)
+      simp only [decide_eq_true_eq, hmk]; omega
+    have h1 := List.countP_le_length (p := fun x => decide (x < median w)) (l := List.take k s)
+    rw [List.length_take] at h1
+    omega
+  · rw [← List.take_append_drop (k + 1) s, List.countP_append]
+    have h0 : (List.take (k + 1) s).countP (fun x => decide (median w < x)) = 0 := by
+      rw [List.countP_eq_zero]
+      intro a ha
+      obtain ⟨j, hj, rfl⟩ := List.mem_take_iff_getElem.1 ha
+      have hj' : j < k + 1 := by omega
+      have := sorted_le hs j k hk (by omega)
+      simp only [decide_eq_true_eq, hmk]; omega
+    have h1 := List.countP_le_length (p := fun x => decide (median w < x)) (l := List.drop (k + 1) s)
+    rw [List.length_drop] at h1
+    omega
+
+/-- … and that characterisation determines the median: it does not depend on how ties are ordered -/
+theorem median_unique (w : List Int) (k : Nat) (h : w.length = 2 * k + 1) (m : Int)
+    (hlt : w.countP (fun x => decide (x < m)) ≤ k) (hgt : w.countP (fun x => decide (m < x)) ≤ k) :
+    m = median w := by
+  obtain ⟨h1, h2⟩ := median_rank w k h
+  have e1 := List.length_eq_countP_add_countP (fun x => decide (x < m)) (l := w)
+  have e2 := List.length_eq_countP_add_countP (fun x => decide (m < x)) (l := w)
+  have e3 := List.length_eq_countP_add_countP (fun x => decide (x < median w)) (l := w)
+  have e4 := List.length_eq_countP_add_countP (fun x => decide (median w < x)) (l := w)
+  rcases Int.lt_trichotomy m (median w) with hlt' | heq | hgt'
+  · -- everything not above m is below the median: more than k such elements
+    have := List.countP_mono_left (l := w) (p := fun a => decide ¬(decide (m < a)) = true)
+      (q := fun x => decide (x < median w)) (by intro x _; simp only [decide_eq_true_eq]; omega)
+    omega
+  · exact heq
+  · have := List.countP_mono_left (l := w) (p := fun a => decide ¬(decide (a < m)) = true)
+      (q := fun x => decide (median w < x)) (by intro x _; simp only [decide_eq_true_eq]; omega)
+    omega
+
+/-! ## `medianFilter` -/
+
+theorem medianFilter_length (xs : List Int) (window : Nat) (pad : Bool) :
+    (medianFilter xs window pad).length = xs.length := stepFilter_length _ _ _ _
+
+/-- **`medianFilter`**: element `i` is the middle element (index `off`) of the sorted clamped window
+`[xs[clamp (i-off)] … xs[clamp (i+off)]]`, `off = window / 2`, when padding is on or the window fits; the
+element is unchanged otherwise. -/
+theorem medianFilter_spec (xs : List Int) (window : Nat) (pad : Bool) (i : Nat) (hi : i < xs.length) :
+    (pad = true ∨ (window / 2 ≤ i ∧ i + window / 2 < xs.length) →
+      (pySorted (clampedWindow xs xs[i] i (window / 2)))[window / 2]? =
+        some ((medianFilter xs window pad)[i]'(by rw [medianFilter_length]; exact hi))) ∧
+    (¬ (pad = true ∨ (window / 2 ≤ i ∧ i + window / 2 < xs.length)) →
+      (medianFilter xs window pad)[i]'(by rw [medianFilter_length]; exact hi) = xs[i]) := by
+  have h := stepFilter_spec median xs window pad i hi
+  constructor
+  · intro hc
+    rw [if_pos hc] at h
+    have := (median_mid (clampedWindow xs xs[i] i (window / 2)) (window / 2) (clampedWindow_length _ _ _ _)).1
+    rw [this]; simp only [medianFilter]; rw [h]
+  · intro hc
+    rw [if_neg hc] at h
+    simpa only [medianFilter] using h
+
+theorem clampedWindow_mem {α : Type} (xs : List α) (i off : Nat) (hi : i < xs.length) :
+    ∀ a ∈ clampedWindow xs xs[i] i off, a ∈ xs := by
+  intro a ha
+  obtain ⟨k, hk, rfl⟩ := List.mem_iff_getElem.1 ha
+  rw [clampedWindow_length] at hk
+  rw [clampedWindow_getElem xs xs[i] i off k (by omega) hk]
+  exact List.getElem_mem _
+
+/-- median filtering invents no values: every output element is an element of the input -/
+theorem medianFilter_mem (xs : List Int) (window : Nat) (pad : Bool) :
+    ∀ a ∈ medianFilter xs window pad, a ∈ xs := by
+  intro a ha
+  obtain ⟨i, hi, rfl⟩ := List.mem_iff_getElem.1 ha
+  rw [medianFilter_length] at hi
+  simp only [medianFilter]
+  rw [stepFilter_spec median xs window pad i hi]
+  split
+  · apply clampedWindow_mem xs i (window / 2) hi
+    apply median_mem
+    intro h0
+    have := clampedWindow_length xs xs[i] i (window / 2)
+    rw [h0] at this; simp at this
+  · exact List.getElem_mem _
+
+/-- a constant series is a fixed point of the median filter (any window, either padding mode) -/
+theorem medianFilter_const (n : Nat) (c : Int) (window : Nat) (pad : Bool) :
+    medianFilter (List.replicate n c) window pad = List.replicate n c := by
+  apply List.ext_getElem
+  · rw [medianFilter_length]
+  · intro i h1 h2
+    have := medianFilter_mem (List.replicate n c) window pad _ (List.getElem_mem h1)
+    rw [List.getElem_replicate]
+    exact (List.mem_replicate.1 this).2
+
+/-- window sizes 0 and 1 (offset 0) are the identity -/
+theorem medianFilter_window0 (xs : List Int) (window : Nat) (hw : window ≤ 1) (pad : Bool) :
+    medianFilter xs window pad = xs := by
+  apply List.ext_getElem
+  · rw [medianFilter_length]
+  · intro i h1 h2
+    have h0 : window / 2 = 0 := by omega
+    simp only [medianFilter]
+    rw [stepFilter_spec median xs window pad i h2, h0]
+    have hc : clampIdx xs.length (i : Int) = i := by unfold clampIdx; omega
+    have hw1 : clampedWindow xs xs[i] i 0 = [xs[i]] := by
+      simp [clampedWindow, hc, List.getElem?_eq_getElem h2]
+    simp [hw1, median, pySorted]
+
+/-! ## `detectPitchErrors` (exact rational arithmetic) -/
+
+/-- `zip l l[1:]` is the list of consecutive pairs `(l[i-1], l[i])`, `i = 1 .. len-1`, in order -/
+theorem pairs_spec {β : Type} (l : List β) :
+    (l.zip l.tail).length = l.length - 1 ∧
+    ∀ j (h : j + 1 < l.length), (l.zip l.tail)[j]? = some (l[j], l[j + 1]) := by
+  constructor
+  · simp only [List.length_zip, List.length_tail]; omega
+  · intro j h
+    rw [List.getElem?_eq_getElem (by simp only [List.length_zip, List.length_tail]; omega)]
+    simp [List.getElem_zip, List.getElem_tail]
+
+theorem filterMap_ite {β γ : Type} (p : β → Bool) (f : β → γ) (l : List β) :
+    l.filterMap (fun x => if p x then some (f x) else none) = (l.filter p).map f := by
+  induction l with
+  | nil => rfl
+  | cons a l ih => by_cases h : p a <;> simp [h, ih]
+
+theorem jumpFires_iff (thr last cur : Rat) :
+    jumpFires thr last cur = true ↔ (last ≤ cur * thr ∨ cur / thr ≤ last) := by
+  simp [jumpFires]
+
+/-- for positive pitches and a positive threshold the test is the textbook one on the ratio `cur / last`:
+the pitch jumped down to at most `thr` times, or up to at least `1 / thr` times, its previous value -/
+theorem jump_ratio (thr last cur : Rat) (ht : 0 < thr) (hl : 0 < last) :
+    jumpFires thr last cur = true ↔ (cur / last ≤ thr ∨ 1 / thr ≤ cur / last) := by
+  rw [jumpFires_iff]
+  have e1 : (last ≤ cur * thr) ↔ (1 / thr ≤ cur / last) := by
+    rw [← Rat.not_lt, ← Rat.not_lt (a := cur / last), Rat.div_lt_iff hl]
+    have : 1 / thr * last = last / thr := by grind
+    rw [this, Rat.lt_div_iff ht]
+  have e2 : (cur / thr ≤ last) ↔ (cur / last ≤ thr) := by
+    rw [← Rat.not_lt, ← Rat.not_lt (a := thr), Rat.lt_div_iff ht, Rat.lt_div_iff hl, Rat.mul_comm]
+  rw [e1, e2]; exact Or.comm
+
+theorem detectLoop_ok {τ : Type} (thr : Rat) (ht : thr ≠ 0) (pairs : List ((τ × Rat) × (τ × Rat)))
+    (hnz : ∀ pc ∈ pairs, jumpFires thr pc.1.2 pc.2.2 = true → pc.1.2 ≠ 0) :
+    detectLoop thr pairs = .ok ((pairs.filter fun pc => jumpFires thr pc.1.2 pc.2.2).map
+      fun pc => (pc.2.1, pc.2.2 / pc.1.2)) := by
+  induction pairs with
+  | nil => rfl
+  | cons pc rest ih =>
+    have ih' := ih (fun q hq => hnz q (List.mem_cons_of_mem _ hq))
+    have h0 := hnz pc List.mem_cons_self
+    simp only [detectLoop, ih', detectStep]
+    have ht' : (thr == 0) = false := by simpa using ht
+    by_cases hf : jumpFires thr pc.1.2 pc.2.2 = true
+    · have hz : (pc.1.2 == 0) = false := by simpa using h0 hf
+      simp [ht', hf, hz]
+    · simp [ht', hf]
+
+/-- **`detectPitchErrors`**: for a threshold in `(0, 1]`, the reported points are exactly the positions
+`i ≥ 1` at which `p[i-1] ≤ p[i]·thr ∨ p[i-1] ≥ p[i]/thr`, in order, with time `t[i]` and the quotient
+`p[i]/p[i-1]` (whose `str` is the label).  Partial: it needs `p[i-1] ≠ 0` wherever the test fires —
+otherwise the code raises (`detect_zero_pitch_counterexample`). -/
+theorem detect_spec_partial {τ : Type} (pl : List (τ × Rat)) (thr : Rat) (h0 : 0 < thr) (h1 : thr ≤ 1)
+    (hnz : ∀ pc ∈ pl.zip pl.tail, jumpFires thr pc.1.2 pc.2.2 = true → pc.1.2 ≠ 0) :
+    detectPitchErrors pl thr = .ok (((pl.zip pl.tail).filter fun pc => jumpFires thr pc.1.2 pc.2.2).map
+      fun pc => (pc.2.1, pc.2.2 / pc.1.2)) := by
+  have hr : ¬ (thr < 0 ∨ thr > 1) := by grind
+  simp only [detectPitchErrors, hr, if_false]
+  exact detectLoop_ok thr (Rat.ne_of_lt h0).symm _ hnz
+
+/-- a threshold outside `[0, 1]` is rejected with `ArgumentError` -/
+theorem detect_rejects {τ : Type} (pl : List (τ × Rat)) (thr : Rat) (h : thr < 0 ∨ 1 < thr) :
+    detectPitchErrors pl thr = .error .ArgumentError := by
+  simp only [detectPitchErrors]
+  rw [if_pos]; exact h
+
+/-- counter-example to the unrestricted statement: a track whose previous sample is 0 (the usual encoding of
+an unvoiced frame) followed by any non-negative sample raises `ZeroDivisionError` for every threshold in
+`(0, 1]` -/
+theorem detect_zero_pitch_counterexample {τ : Type} (t0 t1 : τ) (cur thr : Rat) (hc : 0 ≤ cur)
+    (h0 : 0 < thr) (h1 : thr ≤ 1) :
+    detectPitchErrors [(t0, 0), (t1, cur)] thr = .error .ZeroDivisionError := by
+  have hr : ¬ (thr < 0 ∨ thr > 1) := by grind
+  have ht' : (thr == 0) = false := by simpa using (Rat.ne_of_lt h0).symm
+  have hf : jumpFires thr 0 cur = true := by
+    rw [jumpFires_iff]; left
+    have := Rat.mul_le_mul_of_nonneg_right hc (Rat.le_of_lt h0)
+    simpa using this
+  simp [detectPitchErrors, hr, detectLoop, detectStep, ht', hf]
+
+/-! ## `loadTimeSeriesData` -/
+
+/-- `"--" in value`, as a statement about the characters -/
+theorem hasMarkerL_iff (cs : List Char) :
+    hasMarkerL cs = true ↔ ∃ pre post, cs = pre ++ '-' :: '-' :: post := by
+  induction cs with
+  | nil => simp [hasMarkerL]
+  | cons a cs ih =>
+    cases cs with
+    | nil =>
+      simp only [hasMarkerL, Bool.false_eq_true, false_iff]
+      rintro ⟨pre, post, h⟩
+      have := congrArg List.length h
+      simp at this; omega
+    | cons b cs =>
+      simp only [hasMarkerL, Bool.or_eq_true, Bool.and_eq_true, beq_iff_eq, ih]
+      constructor
+      · rintro (⟨rfl, rfl⟩ | ⟨pre, post, h⟩)
+        · exact ⟨[], cs, rfl⟩
+        · exact ⟨a :: pre, post, by rw [h]; rfl⟩
+      · rintro ⟨pre, post, h⟩
+        cases pre with
+        | nil =>
+          simp only [List.nil_append, List.cons.injEq] at h
+          exact Or.inl ⟨h.1, h.2.1⟩
+        | cons c pre =>
+          simp only [List.cons_append, List.cons.injEq] at h
+          exact Or.inr ⟨pre, post, h.2⟩
+
+/-- the rows after the header test: the first row is dropped iff its first field is exactly `time` -/
+def body : List (List String) → List (List String)
+  | (h :: hs) :: rest => if h = "time" then rest else (h :: hs) :: rest
+  | rows => rows
+
+/-- no value field (any column after the time) carries an undefined marker -/
+def rowClean (row : List String) : Bool := row.tail.all fun v => !hasMarker v
+
+/-- every marker in a value column replaced by `u`, every other field converted -/
+def rowSubst (num : String → Int) (u : Int) : List String → List Int
+  | [] => []
+  | t :: vs => num t :: vs.map fun v => if hasMarker v then u else num v
+
+theorem loadValues_some (num : String → Int) (u : Int) (vs : List String) (entry : List Int) :
+    loadValues (fun s => .ok (num s)) (some u) vs entry =
+      .ok (some (entry ++ vs.map fun v => if hasMarker v then u else num v)) := by
+  induction vs generalizing entry with
+  | nil => simp [loadValues]
+  | cons v vs ih =>
+    by_cases h : hasMarker v = true
+    · simp [loadValues, h, ih]
+    · simp [loadValues, h, ih]
+
+theorem loadValues_none (num : String → Int) (vs : List String) (entry : List Int) :
+    loadValues (fun s => .ok (num s)) none vs entry =
+      .ok (if vs.all (fun v => !hasMarker v) then some (entry ++ vs.map num) else none) := by
+  induction vs generalizing entry with
+  | nil => simp [loadValues]
+  | cons v vs ih =>
+    by_cases h : hasMarker v = true
+    · simp [loadValues, h]
+    · simp [loadValues, h, ih]
+
+theorem loadRows_some (num : String → Int) (u : Int) (rows : List (List String)) (hr : ∀ r ∈ rows, r ≠ []) :
+    loadRows (fun s => .ok (num s)) (some u) rows = .ok (rows.map (rowSubst num u)) := by
+  induction rows with
+  | nil => rfl
+  | cons r rows ih =>
+    have ih' := ih (fun q hq => hr q (List.mem_cons_of_mem _ hq))
+    cases r with
+    | nil => exact absurd rfl (hr [] List.mem_cons_self)
+    | cons t vs => simp [loadRows, loadRow, loadValues_some, ih', rowSubst]
+
+theorem loadRows_none (num : String → Int) (rows : List (List String)) (hr : ∀ r ∈ rows, r ≠ []) :
+    loadRows (fun s => .ok (num s)) none rows = .ok ((rows.filter rowClean).map (·.map num)) := by
+  induction rows with
+  | nil => rfl
+  | cons r rows ih =>
+    have ih' := ih (fun q hq => hr q (List.mem_cons_of_mem _ hq))
+    cases r with
+    | nil => exact absurd rfl (hr [] List.mem_cons_self)
+    | cons t vs =>
+      by_cases hc : vs.all (fun v => !hasMarker v) = true
+      · have : rowClean (t :: vs) = true := by simpa [rowClean] using hc
+        simp only [loadRows, loadRow, loadValues_none, ih', hc, if_true, List.filter_cons, this]
+        simp
+      · have : rowClean (t :: vs) = false := by simpa [rowClean] using hc
+        simp only [loadRows, loadRow, loadValues_none, ih', hc, List.filter_cons, this]
+        simp
+
+theorem dropHeader_body (rows : List (List String)) (hne : rows ≠ []) (hr : ∀ r ∈ rows, r ≠ []) :
+    dropHeader rows = .ok (body rows) := by
+  cases rows with
+  | nil => exact absurd rfl hne
+  | cons r rest =>
+    cases r with
+    | nil => exact absurd rfl (hr [] List.mem_cons_self)
+    | cons h hs => simp [dropHeader, body]
+
+theorem body_sub (rows : List (List String)) : ∀ r ∈ body rows, r ∈ rows := by
+  intro r hr
+  unfold body at hr
+  split at hr
+  · split at hr
+    · exact List.mem_cons_of_mem _ hr
+    · exact hr
+  · exact hr
+
+/-- **`loadTimeSeriesData`** on a listing with at least one row (every row has ≥ 1 field, as `split` guarantees)
+whose fields all convert (`float` total): the header row is dropped iff its first field is `time`; with no
+substitute exactly the rows without a marker in a value column are kept, fully converted, once, in file order;
+with a substitute `u` every row is kept and each marked value field becomes `u`.  Partial: the empty listing
+raises (`load_empty_counterexample`). -/
+theorem load_spec_partial (num : String → Int) (undef : Option Int) (rows : List (List String)) (hne : rows ≠ [])
+    (hr : ∀ r ∈ rows, r ≠ []) :
+    loadTimeSeriesData (fun s => .ok (num s)) undef rows = .ok (
+      match undef with
+      | none => ((body rows).filter rowClean).map (·.map num)
+      | some u => (body rows).map (rowSubst num u)) := by
+  have hb : ∀ r ∈ body rows, r ≠ [] := fun r h => hr r (body_sub rows r h)
+  simp only [loadTimeSeriesData, dropHeader_body rows hne hr]
+  cases undef with
+  | none => exact loadRows_none num (body rows) hb
+  | some u => exact loadRows_some num u (body rows) hb
+
+theorem loadRows_length_le {α : Type} (float : String → Except Err α) (undef : Option α) (rows : List (List String))
+    (out : List (List α)) (h : loadRows float undef rows = .ok out) : out.length ≤ rows.length := by
+  induction rows generalizing out with
+  | nil => simp only [loadRows] at h; cases h; simp
+  | cons r rows ih =>
+    simp only [loadRows] at h
+    split at h
+    · cases h
+    · split at h
+      · cases h
+      · rename_i o ho
+        have := ih o ho
+        cases h
+        split <;> simp <;> omega
+
+/-- the number of rows never grows, whatever `float` does and whatever the substitute is -/
+theorem load_length_le {α : Type} (float : String → Except Err α) (undef : Option α) (rows : List (List String))
+    (out : List (List α)) (h : loadTimeSeriesData float undef rows = .ok out) : out.length ≤ rows.length := by
+  simp only [loadTimeSeriesData] at h
+  split at h
+  · cases h
+  · rename_i b hb
+    have h1 := loadRows_length_le float undef b out h
+    have h2 : b.length ≤ rows.length := by
+      unfold dropHeader at hb
+      split at hb
+      · cases hb
+      · cases hb
+      · cases hb; split <;> simp
+    omega
+
+/-- with a substitute no row is lost: the result has exactly one row per non-header row -/
+theorem load_subst_length (num : String → Int) (u : Int) (rows : List (List String)) (hne : rows ≠ [])
+    (hr : ∀ r ∈ rows, r ≠ []) (out : List (List Int))
+    (h : loadTimeSeriesData (fun s => .ok (num s)) (some u) rows = .ok out) :
+    out.length = (body rows).length := by
+  rw [load_spec_partial num (some u) rows hne hr] at h
+  cases h; simp
+
+/-- counter-example to the unrestricted statement: a listing without any row (an empty file) raises
+`IndexError` (`dataList[0]`) instead of giving the empty list -/
+theorem load_empty_counterexample {α : Type} (float : String → Except Err α) (undef : Option α) :
+    loadTimeSeriesData float undef [] = .error .IndexError := rfl
+
+/-- a field that `float()` rejects in a row that is reached makes the whole call raise: e.g. a header row whose
+first field is not exactly `time` -/
+theorem load_bad_header {α : Type} (float : String → Except Err α) (undef : Option α) (h : String) (hs : List String)
+    (rest : List (List String)) (hh : h ≠ "time") (e : Err) (hf : float h = .error e) :
+    loadTimeSeriesData float undef ((h :: hs) :: rest) = .error e := by
+  simp [loadTimeSeriesData, dropHeader, hh, loadRows, loadRow, hf]
+
+/-! ## `getPitchMeasures` -/
+
+/-- the list the aggregates see: median filter (edge padding on) first, zero removal second; never longer than
+the input -/
+theorem pitchValues_length_le (z : Int → Bool) (xs : List Int) (mw : Option Nat) (fz : Bool) :
+    (pitchValues z xs mw fz).length ≤ xs.length := by
+  cases mw with
+  | none => cases fz <;> simp [pitchValues, List.length_filter_le]
+  | some w =>
+    cases fz
+    · simp [pitchValues, medianFilter_length]
+    · simp only [pitchValues, if_true]
+      exact Nat.le_trans (List.length_filter_le _ _) (Nat.le_of_eq (medianFilter_length xs w true))
+
+theorem pitchValues_plain (z : Int → Bool) (xs : List Int) : pitchValues z xs none false = xs := rfl
+
+/-- zero removal drops exactly the values the predicate calls zero, keeping the order of the rest -/
+theorem pitchValues_filter (z : Int → Bool) (xs : List Int) :
+    pitchValues z xs none true = xs.filter (fun v => !z v) := rfl
+
+/-- **`getPitchMeasures`**: on a non-empty processed list `l = pitchValues …` the result is
+`(mean l, max l, min l, max l - min l, variance l (mean l), sqrt (variance …))` where `max l`/`min l` are the
+greatest / least element of `l`; on an empty one it is all zeros. -/
+theorem pitch_measures_def (A : PitchArith Int) (z : Int → Bool) (xs : List Int) (mw : Option Nat) (fz : Bool) :
+    let l := pitchValues z xs mw fz
+    let r := getPitchMeasures A z xs mw fz
+    (l = [] → r = (0, 0, 0, 0, 0, 0)) ∧
+    (l ≠ [] →
+      r.1 = A.mean l ∧
+      (r.2.1 ∈ l ∧ ∀ v ∈ l, v ≤ r.2.1) ∧
+      (r.2.2.1 ∈ l ∧ ∀ v ∈ l, r.2.2.1 ≤ v) ∧
+      r.2.2.2.1 = r.2.1 - r.2.2.1 ∧
+      r.2.2.2.2.1 = A.variance l (A.mean l) ∧
+      r.2.2.2.2.2 = A.sqrt (A.variance l (A.mean l))) := by
+  intro l r
+  constructor
+  · intro h
+    simp only [r, getPitchMeasures]
+    rw [show pitchValues z xs mw fz = [] from h]
+    simp [Tm.zero]
+  · intro h
+    obtain ⟨a, as, hl⟩ := List.exists_cons_of_ne_nil h
+    have hl' : pitchValues z xs mw fz = a :: as := hl
+    simp only [r, getPitchMeasures, hl', List.length_cons, pyMaxList, pyMinList, Option.getD_some,
+      foldl_pyMax2, foldl_pyMin2]
+    have hlz : (as.length + 1 == 0) = false := by simp
+    simp only [hlz, Bool.false_eq_true, if_false]
+    refine ⟨?_, ⟨?_, ?_⟩, ⟨?_, ?_⟩, ?_, ?_, ?_⟩
+    · rw [hl]
+    · rw [hl]
+      rcases foldl_max_mem as a with h' | h'
+      · rw [h']; exact List.mem_cons_self
+      · exact List.mem_cons_of_mem _ h'
+    · intro v hv
+      rw [hl] at hv
+      rcases List.mem_cons.1 hv with rfl | hv
+      · exact (foldl_max_ge as v).1
+      · exact (foldl_max_ge as a).2 v hv
+    · rw [hl]
+      rcases foldl_min_mem as a with h' | h'
+      · rw [h']; exact List.mem_cons_self
+      · exact List.mem_cons_of_mem _ h'
+    · intro v hv
+      rw [hl] at hv
+      rcases List.mem_cons.1 hv with rfl | hv
+      · exact (foldl_min_le as v).1
+      · exact (foldl_min_le as a).2 v hv
+    · trivial
+    · rw [hl]
+    · rw [hl]
+
+/-! ## non-vacuity and evaluated illustrations (interpreter tests, not proofs) -/
+
+-- the example in the docstring of `medianFilter`
+#guard medianFilter [1, 1, 1, 9, 5, 2, 4, 7, 4, 5, 1, 5] 5 false == ([1, 1, 1, 2, 4, 5, 4, 4, 4, 5, 1, 5] : List Int)
+#guard medianFilter [1, 1, 1, 9, 5, 2, 4, 7, 4, 5, 1, 5] 5 true == ([1, 1, 1, 2, 4, 5, 4, 4, 4, 5, 5, 5] : List Int)
+#guard clampedWindow ([10, 20, 30] : List Int) 0 0 2 == [10, 10, 10, 20, 30]
+#guard dataToFilter ([10, 20, 30] : List Int) 30 2 2 == [10, 20, 30, 30, 30]
+#guard stepFilter (fun w => w.foldl (· + ·) 0) ([1, 2, 4] : List Int) 8 true == [19, 22, 25]
+#guard stepFilter (fun w => w.foldl (· + ·) 0) ([1, 2, 4] : List Int) 2 false == [1, 7, 4]
+#guard median ([3, 1, 2] : List Int) == 2
+#guard (detectPitchErrors [((0 : Int), (100 : Rat)), (1, 200), (2, 100), (3, 69), (4, 100)] (7 / 10)).toOption
+    == some [(1, 2), (2, 1 / 2), (3, 69 / 100), (4, 100 / 69)]
+#guard hasMarker "--undefined--" && !hasMarker "-5" && !hasMarker "1e-5"
+
+/-- the hypotheses of `detect_spec_partial` are satisfiable with a non-empty result -/
+example : (0 : Rat) < 7 / 10 ∧ (7 / 10 : Rat) ≤ 1 ∧
+    (∀ pc ∈ [((0 : Int), (100 : Rat)), (1, 200)].zip [((0 : Int), (100 : Rat)), (1, 200)].tail,
+      jumpFires (7 / 10) pc.1.2 pc.2.2 = true → pc.1.2 ≠ 0) ∧
+    jumpFires (7 / 10 : Rat) 100 200 = true := by
+  have hf : jumpFires (7 / 10 : Rat) 100 200 = true := by
+    rw [jumpFires_iff]; left; grind
+  refine ⟨by grind, by grind, ?_, hf⟩
+  intro pc hpc
+  simp only [List.tail_cons, List.zip_cons_cons, List.zip_nil_right, List.mem_singleton] at hpc
+  subst hpc
+  intro _; grind
+
+def exFloat (s : String) : Except Err Int :=
+  match s with
+  | "0.1" => .ok 1 | "0.2" => .ok 2 | "0.3" => .ok 3 | "100" => .ok 100 | "120" => .ok 120
+  | _ => .error .ValueError
+
+def exListing : List (List String) :=
+  [["time", "pitch", "intensity"], ["0.1", "100", "--undefined--"], ["0.2", "120", "100"], ["0.3", "--undefined--", "100"]]
+
+#guard (loadTimeSeriesData exFloat none exListing).toOption == some [[2, 120, 100]]
+#guard (loadTimeSeriesData exFloat (some 0) exListing).toOption == some [[1, 100, 0], [2, 120, 100], [3, 0, 100]]
+#guard (loadTimeSeriesData exFloat none exListing.tail).toOption == some [[2, 120, 100]]
+#guard (loadTimeSeriesData exFloat none [["Time", "pitch"], ["0.1", "100"]]).toOption == none
+
+/-- the hypotheses of `load_spec_partial` are met by a listing with a header and markers, and the kept rows are
+a proper non-empty subset -/
+example : exListing ≠ [] ∧ (∀ r ∈ exListing, r ≠ []) ∧ (body exListing).length = 3 ∧
+    ((body exListing).filter rowClean).length = 1 := by
+  refine ⟨by decide, by decide, by decide, by decide⟩
+
+/-- the hypotheses of `medianFilter_spec` (filtered branch and unchanged branch) both occur -/
+example : (5 / 2 ≤ 3 ∧ 3 + 5 / 2 < 12) ∧ ¬ (false = true ∨ (5 / 2 ≤ 0 ∧ 0 + 5 / 2 < 12)) := by decide
+
+end C20
